@@ -11,6 +11,7 @@ mod c03;
 mod c14;
 mod c13;
 mod c15;
+mod c16;
 mod c17;
 mod c19;
 mod c05;
@@ -42,6 +43,7 @@ fn module(prop: &str) -> PropModule {
     match prop {
         "C14" => c14::module(),
         "C15" => c15::module(),
+        "C16" => c16::module(),
         "C03" => c03::module(),
         "C17" => c17::module(),
         "C19" => c19::module(),
@@ -71,6 +73,10 @@ fn main() {
         std::process::exit(2);
     }
     let prop = args[1].clone();
+    if prop == "C16-child" {
+        c16::child_main(&args[2], args[3].parse().unwrap_or(0));
+        return;
+    }
     if prop == "C03-child" {
         c03::child_main(&args[2]);
         return;
@@ -129,7 +135,7 @@ fn main() {
     let mut dist: HashMap<String, u64> = HashMap::new();
     let mut inputs_out = fs::File::create(out.join("inputs.jsonl")).unwrap();
     // cases that run in child processes are executed in parallel (order of results is kept)
-    let parallel = matches!(prop.as_str(), "C03");
+    let parallel = matches!(prop.as_str(), "C03" | "C16");
     if parallel {
         let n_threads = 14usize;
         let results: Vec<std::sync::Mutex<Option<String>>> = inputs.iter().map(|_| std::sync::Mutex::new(None)).collect();
